@@ -10,7 +10,7 @@ KNOWN = os.path.join(VERIF, "known_findings.json")
 
 import re as _re
 _OPAQUE = _re.compile(r"\?[A-Za-z_]|undef\(|loop\(|(?<![\{\[])@[A-Za-z_]|<lambda|<closure|"
-                      r"unsupported:")
+                      r"unsupported:|except\(")
 OPAQUE_KINDS = {"unknown": "unresolved value", "undef": "name not bound on this path",
                 "loopout": "loop-carried variable not summarised",
                 "loopcarried": "loop-carried variable not summarised",
